@@ -2,6 +2,7 @@ package sym
 
 import (
 	"fmt"
+	"os"
 	"strings"
 )
 
@@ -261,6 +262,9 @@ func (m *Machine) decide(cond *Term) bool {
 	}
 	if m.DecideProfile != nil {
 		m.DecideProfile[m.curFn]++
+		if os.Getenv("SYMGO_DECIDE_PRINT") != "" {
+			fmt.Fprintf(os.Stderr, "DECIDE in %s: %s\n", m.curFn, cond)
+		}
 	}
 	mv := m.evalModel(cond) != 0
 	other := ncond
